@@ -36,7 +36,9 @@ pub struct Rel {
     pub seq: i8,
     /// 0 none, 1 = first's seq, 2 other
     pub cas: u8,
-    /// 0 same key+salt, 1 same key other salt, 2 other key
+    /// 0 same key+salt, 1 same key other salt, 2 other key; 3 and 4: the same key without a salt, spelt
+    /// differently by the two calls (3: first `None`, second `Some(b"")`; 4: the other way round) - BEP44
+    /// makes an empty salt and no salt the same item, so these are the same target
     pub target: u8,
     /// the first call carries a cas of its own (nothing is stored yet, so the storing nodes accept it)
     pub first_cas: bool,
@@ -76,7 +78,12 @@ pub fn overlap_scenario(r: &mut Report, c: &Case) {
     let case = case_json(c);
     let signer = SigningKey::from_bytes(&rng.array::<32>());
     let other_signer = SigningKey::from_bytes(&rng.array::<32>());
-    let salt: Option<&[u8]> = Some(b"salt-one");
+    let salt: Option<&[u8]> = match c.rel.target {
+        3 => None,
+        4 => Some(b""),
+        _ => Some(b"salt-one"),
+    };
+    let same_target = matches!(c.rel.target, 0 | 3 | 4);
     let s1: i64 = 10;
     let i1 = MutableItem::new(&signer, b"first value", s1, salt);
     let s2 = s1 + c.rel.seq as i64;
@@ -86,6 +93,8 @@ pub fn overlap_scenario(r: &mut Report, c: &Case) {
         let (sg, sl): (&SigningKey, Option<&[u8]>) = match c.rel.target {
             0 => (&signer, salt),
             1 => (&signer, Some(b"salt-two")),
+            3 => (&signer, Some(b"")),
+            4 => (&signer, None),
             _ => (&other_signer, salt),
         };
         MutableItem::new(sg, b"second value", s2, sl)
@@ -171,7 +180,7 @@ pub fn overlap_scenario(r: &mut Report, c: &Case) {
     let fail = |r: &mut Report, sig: &str, what: &str| r.violation(&format!("{sig}/{:?}", c.phase), what, case.clone(), detail.clone());
     if r1.is_none() || r2.is_none() {
         fail(r, "overlap/did-not-complete", "a put_mutable call did not complete");
-    } else if c.rel.target != 0 {
+    } else if !same_target {
         // controls: other salt / other key never interfere
         if s_r1 != "Ok" || s_r2 != "Ok" {
             fail(r, "control/interference", "puts for another salt or key affected each other");
@@ -256,10 +265,15 @@ pub fn majority_scenario(r: &mut Report, seed: u64, fates: &[u8], kind: u8) {
     let w = World::with_cfg(seed, NetCfg { lat_min: MS, lat_max: 30 * MS, random_ties: true }, TraceLevel::Off);
     let n = fates.len();
     let case = json!({"class":"majority","seed":seed.to_string(),"fates":fates,"kind":kind});
-    let ends: Vec<([u8; 20], SocketAddrV4)> = (0..n).map(|i| (rng.array(), SocketAddrV4::new(Ipv4Addr::new(10, 7, 0, 1 + i as u8), 6881))).collect();
+    // kind 6: a mutable put with cas whose storing nodes share IP addresses (several nodes of one host, on
+    // different ports: every node has a vote of its own)
+    let hosts = if kind == 6 { 1 + rng.usize(2) } else { n.max(1) };
+    let ends: Vec<([u8; 20], SocketAddrV4)> = (0..n).map(|i| (rng.array(), if kind == 6 { SocketAddrV4::new(Ipv4Addr::new(10, 7, 1, 1 + (i % hosts) as u8), 6881 + (i / hosts) as u16) } else { SocketAddrV4::new(Ipv4Addr::new(10, 7, 0, 1 + i as u8), 6881) })).collect();
     let socks: Vec<SockId> = ends.iter().map(|e| w.raw(e.1)).collect();
     let index: HashMap<SockId, usize> = socks.iter().enumerate().map(|(i, s)| (*s, i)).collect();
     let (ends2, fates2) = (ends.clone(), fates.to_vec());
+    let asked_to_store = std::rc::Rc::new(std::cell::RefCell::new(HashSet::<usize>::new()));
+    let asked2 = asked_to_store.clone();
     let signer = SigningKey::from_bytes(&rng.array::<32>());
     let put_target = crate::sha1::mutable_target(&signer.verifying_key().to_bytes(), None);
     let n_closest = if kind == 5 { (n + 1) / 2 } else { n };
@@ -271,6 +285,7 @@ pub fn majority_scenario(r: &mut Report, seed: u64, fates: &[u8], kind: u8) {
         let i = index[&sock];
         let me = ends2[i].0;
         let bytes = if q.is_query("put") || q.is_query("announce_peer") || q.is_query("announce_signed_peer") {
+            asked2.borrow_mut().insert(i);
             match fates2[i] {
                 0 => response(&q.t, B::dict(vec![("id", B::bytes(&me))]), Some(&d.from), Some(&VERSION_RS6)).encode(),
                 // every node words its error differently: only the code counts
@@ -306,7 +321,7 @@ pub fn majority_scenario(r: &mut Report, seed: u64, fates: &[u8], kind: u8) {
         r.count("majority_splits_with_extra_storing_nodes");
     }
     let request = match kind {
-        0 | 5 => PutRequestSpecific::PutMutable(PutMutableRequestArguments::from(item, Some(2))),
+        0 | 5 | 6 => PutRequestSpecific::PutMutable(PutMutableRequestArguments::from(item, Some(2))),
         4 => PutRequestSpecific::PutMutable(PutMutableRequestArguments::from(item, None)),
         1 => {
             let v = rng.blob(3, 30);
@@ -331,7 +346,18 @@ pub fn majority_scenario(r: &mut Report, seed: u64, fates: &[u8], kind: u8) {
         other => format!("{other:?}"),
     };
     let detail = json!({"acks": acks, "e301": e301, "e302": e302, "half": half, "result": got});
-    if kind != 0 && kind != 4 && kind != 5 {
+    if kind == 6 {
+        r.count("majority_splits_with_storing_nodes_sharing_an_ip");
+        if asked_to_store.borrow().len() < n {
+            // (the per-IP rules kept one of them out of the write set: the split the oracle assumes did not happen)
+            r.count("majority_splits_shared_ip/not-every-node-was-written-to");
+            drop(x);
+            let _ = crate::take_panics();
+            return;
+        }
+        r.count("majority_splits_shared_ip/every-node-was-written-to");
+    }
+    if kind != 0 && kind != 4 && kind != 5 && kind != 6 {
         // immutable and announce puts never end in a concurrency error, and one ack makes them succeed
         if got == "CasFailed" || got == "NotMostRecent" || got.contains("Concurrency") {
             r.violation("majority/concurrency-error-for-non-mutable-put", "CasFailed / NotMostRecent produced for an immutable or announce put", case.clone(), detail.clone());
@@ -468,6 +494,11 @@ pub fn run(a: &Args) -> Report {
                     rels.push(Rel { same_item: false, seq, cas, target: 0, first_cas: false });
                 }
             }
+            for target in [3u8, 4] {
+                for (seq, cas) in [(-1i8, 0u8), (1, 0), (1, 2), (1, 1), (0, 0)] {
+                    rels.push(Rel { same_item: false, seq, cas, target, first_cas: false });
+                }
+            }
             rels.push(Rel { same_item: false, seq: 0, cas: 0, target: 1, first_cas: false });
             rels.push(Rel { same_item: false, seq: -1, cas: 2, target: 2, first_cas: false });
             for rel in rels {
@@ -499,6 +530,8 @@ pub fn run(a: &Args) -> Report {
             super::guarded(&mut r, json!({"class":"majority","seed":seed4.to_string(),"fates":fates,"kind":4}), |r| majority_scenario(r, seed4, &fates, 4));
             r.count("majority_splits_mutable_without_cas");
             if n >= 2 {
+                let seed6 = mix(seed, 6);
+                super::guarded(&mut r, json!({"class":"majority","seed":seed6.to_string(),"fates":fates,"kind":6}), |r| majority_scenario(r, seed6, &fates, 6));
                 let seed5 = mix(seed, 5);
                 super::guarded(&mut r, json!({"class":"majority","seed":seed5.to_string(),"fates":fates,"kind":5}), |r| majority_scenario(r, seed5, &fates, 5));
             }
